@@ -130,7 +130,9 @@ def replay_file(path):
     if 'error' in a:
         print('replay error:', a['error'])
         return 2
-    confirmed, text = mod.judge(rp['case'], rp['kwargs'], dict(name=rp['obligation'], env=rp['env'], info=rp.get('info', {})), a)
+    from . import common as _common
+    jmod, jkw = _common.resolve(prop, rp['kwargs'])
+    confirmed, text = jmod.judge(rp['case'], jkw, dict(name=rp['obligation'], env=rp['env'], info=rp.get('info', {})), a)
     print('replay %s: %s -- %s' % (path, 'REPRODUCED' if confirmed else 'not reproduced', text))
     if confirmed:
         print('VIOLATION property=%s replay=%s' % (prop, path))
